@@ -5,7 +5,7 @@
     batches := <nb> (<nev> event…)…          script := <ns> <status…>
 
     c19.file   <lim> batches                                          | <nb> <written>…
-    c19.gelf   <lim> <host> <short> <defshort> <full> <ts> <level> batches   | <nb> <written>…
+    c19.gelf   <lim> <failfirst> <host> <short> <defshort> <full> <ts> <level> batches   | <nb> <written>…
     c19.kafka  <lim> <bsz> <deftopic> <usefield> <topicfield> batches | <nb> (<nrec> (<topic> <value>)…)…
     c19.http   <raw> <rawfield> <split> <lim> script batches          | A
     c19.es     <split> <lim> <op> <format> <time> <nvals> <val…> script batches   | A
@@ -123,6 +123,7 @@ def handle (cmd : String) (args impl : List String) : Option (String × String) 
     pure (encWritten (fileRun lim none bs), verdictWritten NL (·.enc) bs impl)
   | "c19.gelf" => do
     let (lim, r) ← pNat args
+    let (_failFirst, r) ← pBool r
     let (_, r) ← pCount pBytes 6 r
     let (bs, r) ← pBatches r
     if r ≠ [] then none
